@@ -2574,6 +2574,7 @@ class Interp:
                     break
             if ks is not None:
                 rty = dty if dty is not None else body["locals"][0][0]
+                st.notes["uf_args"] = st.notes.get("uf_args", ()) + tuple((path, a) for a in args)
                 return ret_k(st, self.materialize(st, rty, ("uf", path, tuple(ks))))
         if not force and depth > self.max_depth and self.is_small_leaf(body):
             force = True
